@@ -81,23 +81,36 @@ bool lib_hash_init(zckCtx *zck, zckHash *hash)
         return false;
 }
 
+/* The bundled update functions take the length as unsigned int */
+#define LIB_HASH_MAX_UPDATE 0x40000000
+
 bool lib_hash_update(zckCtx *zck, zckHash *hash, const char *message, const size_t size)
 {
-        if(hash->type->type == ZCK_HASH_SHA1) {
-            SHA1_Update((SHA_CTX *)hash->ctx, (const sha1_byte *)message, size);
-            return true;
-        } else if(hash->type->type == ZCK_HASH_SHA256) {
-            SHA256_Update((SHA256_CTX *)hash->ctx,
-                          (const unsigned char *)message, size);
-            return true;
-        } else if(hash->type->type >= ZCK_HASH_SHA512 &&
-                  hash->type->type <= ZCK_HASH_SHA512_128) {
-            SHA512_Update((SHA512_CTX *)hash->ctx,
-                          (const unsigned char *)message, size);
-            return true;
+        size_t left = size;
+        if(hash->type->type != ZCK_HASH_SHA1 &&
+           hash->type->type != ZCK_HASH_SHA256 &&
+           !(hash->type->type >= ZCK_HASH_SHA512 &&
+             hash->type->type <= ZCK_HASH_SHA512_128)) {
+            set_error(zck, "Unsupported hash type: %s", zck_hash_name_from_type(hash->type->type));
+            return false;
         }
-        set_error(zck, "Unsupported hash type: %s", zck_hash_name_from_type(hash->type->type));
-        return false;
+        /* Feed the data in pieces whose length fits the bundled interface */
+        do {
+            unsigned int piece = LIB_HASH_MAX_UPDATE;
+            if(left < LIB_HASH_MAX_UPDATE)
+                piece = (unsigned int) left;
+            if(hash->type->type == ZCK_HASH_SHA1)
+                SHA1_Update((SHA_CTX *)hash->ctx, (const sha1_byte *)message, piece);
+            else if(hash->type->type == ZCK_HASH_SHA256)
+                SHA256_Update((SHA256_CTX *)hash->ctx,
+                              (const unsigned char *)message, piece);
+            else
+                SHA512_Update((SHA512_CTX *)hash->ctx,
+                              (const unsigned char *)message, piece);
+            message += piece;
+            left -= piece;
+        } while(left > 0);
+        return true;
 }
 
 char *lib_hash_final(zckCtx *zck, zckHash *hash)
